@@ -183,7 +183,7 @@ Fixpoint expected (l : list item) : outcome :=
   | [] => ([], None)
   | ((m, _), BDeliver) :: l' => cons_piece m (expected l')
   | (_, BSkip) :: l' => expected l'
-  | (_, BRaise e) :: _ => ([], Some e)
+  | (_, BRaise e) :: _ => ([], Some (gen_exc e))
   end.
 
 Section Proofs.
@@ -222,7 +222,7 @@ Section Proofs.
         match step' io coe fl (skipn i s) with
         | Yield p adv => cons_piece p (scan' io coe fl fuel s (i + adv))
         | Skip adv => scan' io coe fl fuel s (i + adv)
-        | Raise e => ([], Some e)
+        | Raise e => ([], Some (gen_exc e))
         end
       end
     else ([], None).
@@ -295,7 +295,7 @@ Proof.
 Qed.
 
 Lemma expected_tag_raise p l x e l2 :
-  expected (map (tag p) l ++ (x, BRaise e) :: l2) = (filter p (map fst l), Some e).
+  expected (map (tag p) l ++ (x, BRaise e) :: l2) = (filter p (map fst l), Some (gen_exc e)).
 Proof.
   induction l as [|[m sp] l IH]; [destruct x; reflexivity|].
   cbn [map tag fst filter expected app]. destruct (p m); cbn [expected]; rewrite IH; reflexivity.
@@ -481,7 +481,7 @@ Section Theorems.
   Lemma scan_raises io coe sep0 l m rest e :
     nosig sep0 -> stream_ok (valid_msg' io) l ->
     starts_sig m -> fails' io m e -> (coe = false \/ is_lib_err e = false) ->
-    generate' io coe false (sep0 ++ assemble l ++ m ++ rest) = (map fst l, Some e).
+    generate' io coe false (sep0 ++ assemble l ++ m ++ rest) = (map fst l, Some (gen_exc e)).
   Proof.
     intros Hsep Hl Hm Hf Hc.
     pose (x := ((m ++ rest, @nil byte), BRaise e) : item).
@@ -507,15 +507,25 @@ Section Theorems.
      and then the error surfaces — whatever follows the damaged message *)
   Theorem scan_stops_at_error io sep0 l m rest e :
     nosig sep0 -> stream_ok (valid_msg' io) l -> starts_sig m -> fails' io m e ->
-    generate' io false false (sep0 ++ assemble l ++ m ++ rest) = (map fst l, Some e).
+    generate' io false false (sep0 ++ assemble l ++ m ++ rest) = (map fst l, Some (gen_exc e)).
   Proof. intros. apply scan_raises; auto. Qed.
+
+  Lemma gen_exc_lib e : is_lib_err e = true -> gen_exc e = e.
+  Proof. now destruct e. Qed.
+
+  (* ... as the library's own error type when it is one *)
+  Corollary scan_stops_at_library_error io sep0 l m rest e :
+    nosig sep0 -> stream_ok (valid_msg' io) l -> starts_sig m -> fails' io m e ->
+    is_lib_err e = true ->
+    generate' io false false (sep0 ++ assemble l ++ m ++ rest) = (map fst l, Some e).
+  Proof. intros. rewrite scan_stops_at_error with (e := e) by assumption. now rewrite gen_exc_lib. Qed.
 
   (* an exception that is not a PyBufrKitError (e.g. AssertionError, D10) is not
      caught, continue_on_error or not *)
   Theorem non_library_error_escapes io coe sep0 l m rest e :
     nosig sep0 -> stream_ok (valid_msg' io) l -> starts_sig m -> fails' io m e ->
     is_lib_err e = false ->
-    generate' io coe false (sep0 ++ assemble l ++ m ++ rest) = (map fst l, Some e).
+    generate' io coe false (sep0 ++ assemble l ++ m ++ rest) = (map fst l, Some (gen_exc e)).
   Proof. intros. apply scan_raises; auto. Qed.
 End Theorems.
 
